@@ -509,9 +509,12 @@ impl Database {
                     }
                 }
 
-                // The group already exists and is at the right location, so we can proceed and merge
-                // the two groups.
-                let new_merge_log = self.merge_group(new_group_location, other_group, is_in_deleted_group)?;
+                // The group already exists and stays where the destination has it, so we can
+                // proceed and merge the two groups at the destination's location.
+                let mut existing_group_location = destination_group_location.clone();
+                existing_group_location.push(other_group_uuid);
+                let new_merge_log =
+                    self.merge_group(existing_group_location, other_group, is_in_deleted_group)?;
                 log.append(&new_merge_log);
                 continue;
             }
